@@ -1,10 +1,36 @@
 /-
 C07 — reduction identity: sample re-weighting is the exact gradient of the Lagrangian.
-Property theorems only; helper lemmas live in `Lemmas/Moments*.lean`.
+Property theorems only; helper lemmas live in `Lemmas/Moments*.lean`, `Lemmas/Oracle.lean`.
 
 Everything is stated for arbitrary rational multipliers `lam` and arbitrary (soft) prediction vectors
 `h`, `h'` of the right length — no basis/affinity argument is needed — and for an arbitrary event
-assignment `ev` (so it covers the documented rule and the code as written alike).
+assignment `ev` (so it covers the documented rule and the pre-F3-fix code alike).
+
+CLAUSE → THEOREM TABLE (review R1; property text in properties.jsonl, id C07)
+  (1) "for every constraint moment … every non-negative λ and any two (soft) predictors h, h′:
+       λ·γ(h) − λ·γ(h′) = −(1/n) Σ_i w_i (h_i − h′_i), w = signed_weights(λ)"
+        `reduction_identity` — all five parity moments (any `ev`, any `Util`), ANY rational λ (non-negativity is not
+        needed; a λ shorter/longer than the index is read on the common prefix on both sides), ANY rational h, h′ of
+        length n (not only [0,1]); `shared_U` (same `U` in both).  n = 0: both sides are 0 (Lean `1/0 = 0`); the
+        case does not exist in the code (`_validate_and_reformat_input` rejects empty y; the driver rejects empty rows).
+  (2) "… and objective"      `objective_identity` (ErrorRate with costs; labels 0/1 and h, h′ ∈ [0,1] are NEEDED: the
+        code's `y − pred` is split by sign, `objective_needs_unit_interval` is the counterexample outside [0,1]),
+        `objective_weights_scaled`; objective + constraints together: `lagrangian_identity`.
+  (3) "for loss moments λ·γ(h) = (1/n) Σ_i w_i loss_i(h)"     `loss_identity`, `loss_weights_default`
+  (4) "Consequently a learner that minimises the weighted 0/1 error against labels 1[w>0] with weights |w| minimises
+       objective + λ·γ over its hypothesis class"
+        `best_response` (identity), `best_response_minimises_lagrangian` (pairwise), and over the LIFTED
+        `_call_oracle` / `GridSearch.fit` expressions, for an ARBITRARY class `H` of hard predictors and INCLUDING the
+        objective term: `eg_argmin_iff`, `grid_argmin_iff` (both directions), `eg/grid_weighted_error_affine` (exact
+        constants), `eg_normalisation_preserves_order`; tie at w = 0 (`>` vs `≥`): `relabel_nonstrict_harmless`,
+        `zero_signed_weight_zero_weight`, `zero_weight_label_irrelevant`; all-zero weights (0/0 normalisation):
+        `call_oracle_nan_iff`; DummyClassifier shortcut: `dummy_is_minimiser`, `eg/grid_dummy_minimises_lagrangian`;
+        regression reductions: `loss_oracle_identity`, `loss_grid_identity`.
+  (5) "project_lambda returns a non-negative vector whose Lagrangian value is never lower than the original for any
+       predictor"   `project_lambda_guarantee` (ANY ratio, both parts), from `project_lambda_sound` (ratio 1) and
+        `project_lambda_identity` (ratio ≠ 1: the code returns λ unchanged), `project_lambda_flat`,
+        `gamma_minus_eq_neg_plus`.  Hypotheses λ ≥ 0 and slack ≥ 0 are NEEDED: `project_lambda_needs_nonneg_slack`
+        (a negative `difference_bound` is accepted by the constructor; replayed on fairlearn: L drops from 2 to 0).
 -/
 import FairModel.Lemmas.MomentsReduction
 import FairModel.Lemmas.Oracle
@@ -605,5 +631,120 @@ example : Oracle.callGrid true [1/2, 3, -2] [1, -1, 1] = .fit [1, 1, 0] [1/2, 3,
 example : Oracle.callOracleParity (eventOf .eo) ex1 (1/2) defaultUtil 1 1 lam1
     = .dummy 1 [1, 1, 1, 1, 1, 1] [132/125, 264/125, 96/125, 6/25, 132/125, 96/125] := by decide +kernel
 example : (Oracle.egAbsWeights (Oracle.totalW (eventOf .eo) ex1 (1/2) defaultUtil 1 1 lam1)).sum ≠ 0 := by decide +kernel
+
+
+/-! ### review R1: objective + constraints in one identity, project_lambda for every ratio, necessity witnesses -/
+
+/-- **the Lagrangian's gradient is the total sample weight**: for soft predictors `h, h'` and 0/1 labels,
+    `(err + λ·γ)(h) − (err + λ·γ)(h') = −(1/n) Σ_i (w^obj_i + w_i)(h_i − h'_i)` with `w^obj = ErrorRate.signed_weights()`,
+    `w = signed_weights(λ)` — any rational λ, any costs -/
+theorem lagrangian_identity (ev : Ev) (rows : List Row) (ratio : Rat) (ut : Util) (fp fn : Rat)
+    (lam h h' : List Rat) (hl : h.length = rows.length) (hl' : h'.length = rows.length)
+    (hy : Hard (labelsOf rows)) (hh : Soft h) (hh' : Soft h') :
+    (errGamma fp fn (labelsOf rows) h + dot lam (gamma ev rows ratio ut h))
+      - (errGamma fp fn (labelsOf rows) h' + dot lam (gamma ev rows ratio ut h'))
+      = -(1 / (rows.length : Rat))
+          * dot (vadd (errWeights fp fn (labelsOf rows) none) (signedWeights ev rows ratio ut lam)) (vsub h h') := by
+  have hlen : (labelsOf rows).length = rows.length := by simp [labelsOf]
+  have e1 := reduction_identity ev rows ratio ut lam h h' hl hl'
+  have e2 := objective_identity fp fn (labelsOf rows) h h' (by rw [hlen, hl]) (by rw [hlen, hl']) hy hh hh'
+  rw [hlen] at e2
+  have e4 : dot (vadd (errWeights fp fn (labelsOf rows) none) (signedWeights ev rows ratio ut lam)) (vsub h h')
+      = dot (errWeights fp fn (labelsOf rows) none) (vsub h h') + dot (signedWeights ev rows ratio ut lam) (vsub h h') :=
+    dot_vadd_left _ _ _ (by simp [errWeights, signedWeights, labelsOf])
+  rw [e4]
+  have e5 : (errGamma fp fn (labelsOf rows) h + dot lam (gamma ev rows ratio ut h))
+      - (errGamma fp fn (labelsOf rows) h' + dot lam (gamma ev rows ratio ut h'))
+      = (errGamma fp fn (labelsOf rows) h - errGamma fp fn (labelsOf rows) h')
+        + (dot lam (gamma ev rows ratio ut h) - dot lam (gamma ev rows ratio ut h')) := by ring
+  rw [e5, e1, e2]; ring
+
+/-- the restriction of `objective_identity` to predictions in [0,1] is necessary: `ErrorRate.gamma` splits `y − pred`
+    by sign, so outside [0,1] it is not affine in the prediction (label 1, predictions 2 and 0, unit costs) -/
+theorem objective_needs_unit_interval :
+    errGamma 1 1 [1] [2] - errGamma 1 1 [1] [0] ≠ -(1 / ((([1] : List Rat).length : Nat) : Rat)) * dot (errWeights 1 1 [1] none) (vsub [2] [0]) := by
+  decide +kernel
+
+/-- **project_lambda, every ratio**: for non-negative multipliers and a non-negative slack the result is non-negative
+    and its Lagrangian value is not lower than the original's, for every predictor `h` — the projection for ratio 1,
+    the identity otherwise (as coded) -/
+theorem project_lambda_guarantee (ev : Ev) (rows : List Row) (ratio : Rat) (ut : Util) (h : List Rat) (eps err : Rat)
+    (lp lm : List Rat) (heps : 0 ≤ eps) (hp : ∀ x ∈ lp, 0 ≤ x) (hm : ∀ x ∈ lm, 0 ≤ x)
+    (h1 : lp.length = (observedPairs ev rows).length) (h2 : lm.length = (observedPairs ev rows).length) :
+    let p := projectLambda ratio lp lm
+    (∀ x ∈ p.1 ++ p.2, 0 ≤ x) ∧
+    lagrangianValue err (lp ++ lm) (gamma ev rows ratio ut h) (bound ev rows eps)
+      ≤ lagrangianValue err (p.1 ++ p.2) (gamma ev rows ratio ut h) (bound ev rows eps) := by
+  by_cases hr : ratio = 1
+  · subst hr
+    exact project_lambda_sound ev rows ut h eps err lp lm heps hp hm h1 h2
+  · intro p
+    have hp' : p = (lp, lm) := project_lambda_identity ratio lp lm hr
+    rw [hp']
+    refine ⟨?_, le_refl _⟩
+    intro x hx
+    rcases List.mem_append.mp hx with hx | hx
+    · exact hp x hx
+    · exact hm x hx
+
+/-- the slack must be non-negative for that guarantee: `DemographicParity(difference_bound = −1)` is accepted by the
+    constructor, and projecting λ = (1, 0 | 1, 0) to (0, 0 | 0, 0) lowers `Σ λ·(γ − ε)` from 2 to 0 (two rows, two
+    groups, predictor 0; replayed on fairlearn by review R1) -/
+theorem project_lambda_needs_nonneg_slack :
+    let rows : List Row := [⟨0, "a", none⟩, ⟨0, "b", none⟩]
+    let p := projectLambda 1 [1, 0] [1, 0]
+    mkConfig (some (-1)) none 0 = .ok (-1, 1) ∧
+    lagrangianValue 0 ([1, 0] ++ [1, 0]) (gamma (eventOf .dp) rows 1 defaultUtil [0, 0]) (bound (eventOf .dp) rows (-1)) = 2 ∧
+    lagrangianValue 0 (p.1 ++ p.2) (gamma (eventOf .dp) rows 1 defaultUtil [0, 0]) (bound (eventOf .dp) rows (-1)) = 0 := by
+  decide +kernel
+
+/-! non-vacuity: all hypotheses of the main theorems met simultaneously by `ex1` (6 rows, 2 groups, 2 strata, both
+    labels), non-trivial multipliers and two different predictors -/
+def hC : List Rat := [1, 0, 1, 1, 0, 1]
+def hD : List Rat := [0, 1, 1, 0, 1, 0]
+example : ex1 ≠ [] ∧ hC.length = ex1.length ∧ hD.length = ex1.length := by decide +kernel
+example : Hard hC ∧ Hard hD := by
+  constructor
+  · show ∀ x ∈ hC, x = 0 ∨ x = 1
+    decide +kernel
+  · show ∀ x ∈ hD, x = 0 ∨ x = 1
+    decide +kernel
+example : Soft hA ∧ Soft hB := by
+  constructor
+  · show ∀ x ∈ hA, 0 ≤ x ∧ x ≤ 1
+    decide +kernel
+  · show ∀ x ∈ hB, 0 ≤ x ∧ x ≤ 1
+    decide +kernel
+-- `objective_identity` / `lagrangian_identity`: both sides are the same NON-ZERO number
+example : errGamma 2 3 (labelsOf ex1) hA - errGamma 2 3 (labelsOf ex1) hB
+    = -(1 / 6) * dot (errWeights 2 3 (labelsOf ex1) none) (vsub hA hB) ∧
+    errGamma 2 3 (labelsOf ex1) hA - errGamma 2 3 (labelsOf ex1) hB ≠ 0 := by decide +kernel
+-- `best_response_minimises_lagrangian`: both sides of the ↔ on concrete hard predictors: `hD` beats `hC` on the
+-- weighted 0/1 error (43/4 < 33/2) and on the Lagrangian (−11/4 < −43/24); the differences are in ratio n = 6
+example :
+    let w := vadd (errWeights 1 1 (labelsOf ex1) none) (signedWeights (eventOf .eo) ex1 (1/2) defaultUtil lam1)
+    weighted01 (relabel w) (absWeights w) hC = 33/2 ∧ weighted01 (relabel w) (absWeights w) hD = 43/4 ∧
+    errGamma 1 1 (labelsOf ex1) hC + dot lam1 (gamma (eventOf .eo) ex1 (1/2) defaultUtil hC) = -43/24 ∧
+    errGamma 1 1 (labelsOf ex1) hD + dot lam1 (gamma (eventOf .eo) ex1 (1/2) defaultUtil hD) = -11/4 := by decide +kernel
+-- `project_lambda_sound` / `_guarantee`: ratio 1, slack 1/8, λ ≥ 0 with both members of a pair positive; the value
+-- strictly increases
+example : (observedPairs (eventOf .tpr) ex1).length = 3 := by decide +kernel
+example :
+    let p := projectLambda 1 [3, 1, 0] [1, 2, 0]
+    lagrangianValue 0 ([3, 1, 0] ++ [1, 2, 0]) (gamma (eventOf .tpr) ex1 1 defaultUtil hA) (bound (eventOf .tpr) ex1 (1/8)) = 5/8 ∧
+    lagrangianValue 0 (p.1 ++ p.2) (gamma (eventOf .tpr) ex1 1 defaultUtil hA) (bound (eventOf .tpr) ex1 (1/8)) = 9/8 := by
+  decide +kernel
+-- `loss_identity`: three rows, two groups, non-trivial multipliers, clipping active
+example : dot [1, 2] (bglGamma (.square 0 1) [⟨1, "a"⟩, ⟨0, "b"⟩, ⟨1, "b"⟩] [1/2, 2, 1/4])
+    = (1 / 3) * dot (bglSignedWeights [⟨1, "a"⟩, ⟨0, "b"⟩, ⟨1, "b"⟩] (some [1, 2])) (lossOf (.square 0 1) [⟨1, "a"⟩, ⟨0, "b"⟩, ⟨1, "b"⟩] [1/2, 2, 1/4]) ∧
+    dot [1, 2] (bglGamma (.square 0 1) [⟨1, "a"⟩, ⟨0, "b"⟩, ⟨1, "b"⟩] [1/2, 2, 1/4]) ≠ 0 := by decide +kernel
+-- `eg_argmin_iff` / `grid_argmin_iff`: a concrete two-element hypothesis class meets `hH`; `hS` is the example above
+open Oracle in
+example : ∀ h, (fun h => h = hC ∨ h = hD) h → h.length = ex1.length ∧ Hard h := by
+  rintro h (rfl | rfl)
+  · exact ⟨by decide, by show ∀ x ∈ hC, x = 0 ∨ x = 1; decide +kernel⟩
+  · exact ⟨by decide, by show ∀ x ∈ hD, x = 0 ∨ x = 1; decide +kernel⟩
+-- `loss_oracle_identity`: λ ≥ 0 on three rows
+example : (∀ x ∈ ([1, 2] : List Rat), 0 ≤ x) := by decide +kernel
 
 end C07
